@@ -501,6 +501,8 @@ func runC07(e *Env) error {
 		switch c.Formatter {
 		case "atlas":
 			kind = "atlas"
+		case "atlas-checkpoint":
+			kind = "atlas-checkpoint"
 		case "golang-migrate", "flyway":
 			kind = "up"
 		}
